@@ -104,6 +104,20 @@ def scenarios(tier, rng):
             calls = [{"kind": k, "n": 2 if k in ("sub", "unsub") else 1} for k in kinds]
             out.append({"id": "d%d" % i, "calls": calls, "script": sc})
             i += 1
+    # abandoned requests: the caller gives up (deadline) before the acknowledgement; late acknowledgements for the
+    # abandoned identifiers must neither complete nor disturb requests issued afterwards
+    for kind in KINDS:
+        for na, nf in ((4, 3), (12, 8)):
+            for order in (0, 1):
+                calls = [{"kind": kind, "n": 1, "abandonMs": 15} for _ in range(na)]
+                calls2 = [{"kind": kind, "n": 1} for _ in range(nf)]
+                late = [{"c": c + 1, "k": FIRST[kind]} for c in range(na)]
+                sc0 = {"id": "a%d" % i, "calls": calls, "script": [], "calls2": calls2, "script2": late}
+                if order:
+                    # acknowledge the last fresh request properly at the very end
+                    sc0["script2"] = late + [{"c": na + nf, "k": FIRST[kind]}] + ([{"c": na + nf, "k": "PUBCOMP"}] if kind == "pub2" else [])
+                out.append(sc0)
+                i += 1
     # all SUBACK return-code vectors for 1..3 filters, and wrong counts
     for n in (1, 2, 3):
         for ln in range(0, n + 2):
